@@ -5,6 +5,7 @@ import (
 	"encoding/json"
 	"fmt"
 	"hash/fnv"
+	"math"
 	"math/bits"
 	"strings"
 
@@ -32,6 +33,9 @@ var KeyUniverse = [][]byte{nil, {}, []byte("a"), []byte("ab"), []byte("abc"), []
 
 // CollidingAbsent are never published but share a hash with a key that is.
 var CollidingAbsent = [][]byte{collisionPairs[1][1], collisionPairs[2][1]}
+
+// longKeys are published rarely: longer than a read buffer, and longer than 64 KiB (a 16-bit length would wrap).
+var longKeys = [][]byte{append([]byte("L"), pattern(299, 7)...), append([]byte("XL"), pattern(69998, 9)...)}
 
 var smallKeys = [][]byte{nil, []byte("a"), []byte("b"), collisionPairs[0][0], collisionPairs[0][1]}
 
@@ -66,6 +70,7 @@ func genConfig(t *rapid.T, p *Profile) HConfig {
 	c.CheckEvery = pick(t, []int{1, 1, 1, 2, 3, 6}, "check_every")
 	c.DirStyle = pick(t, []int{0, 0, 0, 1, 2, 3}, "dir_style")
 	c.WallClock = !p.RelTime && c.MonoTimes && uni(t, 6, "wall_clock") == 5
+	c.SubMicro = uni(t, 5, "sub_micro") == 4
 	c.SmallKeys = p.SmallKeys
 	c.RelTime = p.RelTime
 	return c
@@ -134,6 +139,10 @@ func (e *Env) genMsg(t *rapid.T, lastTS *int64) MsgIn {
 	if k := pick(t, keys, "key"); k != nil {
 		in.K = HexBytes(append([]byte{}, k...))
 	}
+	if !e.Cfg.SmallKeys && uni(t, 40, "long_key") == 39 {
+		in.K = HexBytes(append([]byte{}, pick(t, longKeys, "which")...))
+		e.St.Inc("messages_with_long_key")
+	}
 	switch vk := uni(t, 40, "valkind"); {
 	case vk < 8:
 		in.V = nil
@@ -143,6 +152,9 @@ func (e *Env) genMsg(t *rapid.T, lastTS *int64) MsgIn {
 		in.V = pattern(rapid.IntRange(200, 400).Draw(t, "vlen"), byte(vk))
 	case vk == 11 && !e.Cfg.SmallKeys:
 		in.V = pattern(rapid.IntRange(2000, 5000).Draw(t, "vlen"), byte(vk))
+	case vk == 12 && !e.Cfg.SmallKeys && uni(t, 3, "huge") == 2:
+		in.V = pattern(pick(t, []int{4096 - 28, 65536 - 40, 65536, 70001}, "vlen"), byte(vk))
+		e.St.Inc("messages_with_value_around_64KiB")
 	default:
 		in.V = pattern(rapid.IntRange(1, 40).Draw(t, "vlen"), byte(rapid.IntRange(0, 255).Draw(t, "vseed")))
 	}
@@ -309,10 +321,16 @@ func (e *Env) genDeleteOffsets(t *rapid.T) []int64 {
 		for _, d := range rapid.SliceOfN(rapid.Int64Range(0, 3), 1, 3).Draw(t, "beyond") {
 			set[m.Next+d] = struct{}{}
 		}
+		if uni(t, 3, "far") == 2 {
+			set[pick(t, []int64{m.Next + 1000, 1 << 31, 1 << 40, math.MaxInt64 - 1, math.MaxInt64}, "far_off")] = struct{}{}
+		}
 	case "mixed":
 		nm := 1 + uni(t, 6, "n_mixed")
 		for i := 0; i < nm; i++ {
 			set[int64(uni(t, int(m.Next)+2, "off"))] = struct{}{}
+		}
+		if uni(t, 4, "far") == 3 {
+			set[pick(t, []int64{m.Next + 1000, 1 << 31, 1 << 40, math.MaxInt64 - 1, math.MaxInt64}, "far_off")] = struct{}{}
 		}
 	case "head", "segment", "edge":
 		segs, _ := ReadSegs(e.Dir)
@@ -390,6 +408,9 @@ func (e *Env) GenOp(t *rapid.T) Op {
 		for i := range op.Msgs {
 			op.Msgs[i] = e.genMsg(t, &last)
 		}
+		if n > 0 && n <= 6 && uni(t, 30, "oversize") == 29 {
+			op.Oversize = 1 + uni(t, n, "oversize_at")
+		}
 		return op
 	case "delete":
 		return Op{Kind: "delete", Offsets: e.genDeleteOffsets(t), Variant: e.genVariant(t)}
@@ -415,6 +436,10 @@ func (e *Env) GenOp(t *rapid.T) Op {
 			op.N = int64(uni(t, int(dirDataSize(e.Dir))+41, "size"))
 		case "age":
 			op.N = e.genTimeBound(t)
+		}
+		if op.Sub != "age" && uni(t, 10, "far_bound") == 9 {
+			// bounds far above the live range, up to the largest value of the argument's type
+			op.N = pick(t, []int64{m.Next + 1000, 1 << 31, 1<<31 + 1, 1 << 40, math.MaxInt64 - 1, math.MaxInt64}, "far")
 		}
 		return op
 	case "compact":
